@@ -1,5 +1,6 @@
 import Driver.Util
 import StoneVerif.Model.Lex
+import StoneVerif.Model.Stdin
 import Driver.FeRules
 /-! Protocol handlers of the `fe.*` suites. -/
 open Lean
@@ -68,12 +69,21 @@ def handleLex (j : Json) : Except String Json := do
             ("errs", Json.arr (o.errs.map errToJson).toArray),
             ("logical", Json.num (ls.length : Nat))])
 
+/-- `fe.stdin` (C11): `{"op":"fe.stdin","text":"..."}` -> `{"specs":[[k, text], ...]}`: the stdin branch of
+`stone.cli.main` (spec `k` is named `stdin.k`) -/
+def handleStdin (j : Json) : Except String Json := do
+  let text ← jstr j "text"
+  let parts := StoneVerif.Stdin.splitStdinL text.toList
+  pure (ok [("specs", Json.arr (parts.map fun p =>
+    Json.arr #[Json.num (p.1 : Nat), Json.str (String.ofList p.2)]).toArray)])
+
 end FeLex
 /-! end of the `fe.lex` section ------------------------------------------------------------------ -/
 
 def handle (op : String) (j : Json) : Except String Json := do
   match op with
   | "fe.lex" => handleLex j
+  | "fe.stdin" => handleStdin j
   | _ =>
     -- fe.params / fe.names (C01 / C03 component models): Driver/FeRules.lean
     if op.startsWith "fe.params" || op.startsWith "fe.names" then Driver.FeRules.handle op j
